@@ -269,12 +269,92 @@ pub fn exec_scenario_main(prop: &str, path: &str) -> i32 {
     }
 }
 
+/// Run the adaptive pattern probes in an isolated child (watchdog + address-space limit). On success
+/// the table is exported for the workers; when the child dies or hangs, the probes in flight are
+/// re-executed one by one in isolation and the first violation is returned.
+fn probe_isolated(prop: &'static str, seed: u64, hang_budget: Duration) -> Option<Found> {
+    let dir = format!("{}/target/tmp", engine::verif_root());
+    let _ = std::fs::create_dir_all(&dir);
+    let path = format!("{}/deep-patterns-{}.json", dir, std::process::id());
+    let exe = std::env::current_exe().ok()?;
+    let mut child = Command::new(exe)
+        .args(["probe-patterns", &seed.to_string(), &path])
+        .env("PFSIM_PROBE_PROGRESS", "1")
+        .stdin(Stdio::null())
+        .stdout(Stdio::piped())
+        .stderr(Stdio::null())
+        .spawn()
+        .ok()?;
+    let inflight: Arc<Mutex<std::collections::BTreeMap<u64, (u8, String)>>> = Arc::new(Mutex::new(Default::default()));
+    let last = Arc::new(Mutex::new(Instant::now()));
+    let (inf2, last2) = (inflight.clone(), last.clone());
+    let stdout = child.stdout.take()?;
+    let reader = std::thread::spawn(move || {
+        for line in BufReader::new(stdout).lines().map_while(|l| l.ok()) {
+            let f: Vec<&str> = line.split(' ').collect();
+            if f.len() >= 3 {
+                if let (Ok(i), Ok(p)) = (f[1].parse::<u64>(), f[2].parse::<u8>()) {
+                    let mut g = inf2.lock().unwrap();
+                    if f[0] == "PB" {
+                        g.insert(i, (p, f.get(3).unwrap_or(&"").to_string()));
+                    } else {
+                        g.remove(&i);
+                    }
+                    *last2.lock().unwrap() = Instant::now();
+                }
+            }
+        }
+    });
+    let ok = loop {
+        match child.try_wait() {
+            Ok(Some(st)) => break st.success(),
+            Ok(None) => {
+                if last.lock().unwrap().elapsed() > hang_budget {
+                    let _ = child.kill();
+                    let _ = child.wait();
+                    break false;
+                }
+                std::thread::sleep(Duration::from_millis(50));
+            }
+            Err(_) => break false,
+        }
+    };
+    let _ = reader.join();
+    if ok && std::path::Path::new(&path).exists() {
+        std::env::set_var("PFSIM_DEEP_FILE", &path);
+        return None;
+    }
+    // attribute: re-execute the probes that were in flight, each alone
+    let cands: Vec<(u64, (u8, String))> = inflight.lock().unwrap().iter().map(|(k, v)| (*k, v.clone())).collect();
+    for (i, (p, hexpat)) in cands {
+        let pat = crate::desc::unhex(&hexpat).unwrap_or_default();
+        let sc = engine::probe_scenario(p, &pat);
+        if let Some(v) = exec_isolated(prop, &sc, hang_budget).into_iter().next() {
+            let mut sc = sc;
+            sc.faults.push(crate::desc::Fault { kind: "stuck", at: 0, detail: format!("pattern probe #{}: periodic script {:02x?}, 800 opcodes", i, pat) });
+            return Some(Found { index: i, scenario: sc, violation: v });
+        }
+    }
+    Some(Found {
+        index: 0,
+        scenario: engine::probe_scenario(0, &[]),
+        violation: Violation::new(prop, "process-death(probing child)", "the isolated pattern-probing child died or hung but no single probe reproduced it alone"),
+    })
+}
+
 pub fn sweep_procs(prop: &'static str, tier: Tier, seed: u64, runs: u64, wall_cap_s: f64, hang_budget: Duration) -> ProcOutcome {
     let t0 = Instant::now();
+    let known = engine::load_known();
+    // a confirmed hang or a worker death that is not a listed known finding ends the sweep early:
+    // the check has its violation, and every further hang would cost two watchdog budgets
+    let mut fatal = false;
     let n = engine::n_threads() as u64;
     let spec = engine::spec_for(prop, tier).expect("spec");
     if engine::deep_count(&spec, tier) > 0 {
-        engine::export_deep_patterns(seed);
+        // the pattern probes execute the code under test: they run in an isolated child too
+        if let Some(f) = probe_isolated(prop, seed, hang_budget) {
+            return ProcOutcome { stats: Stats::default(), found: vec![f], wall_s: t0.elapsed().as_secs_f64(), worker_restarts: 0, capped: false };
+        }
     }
     let mut workers: Vec<Option<Worker>> = (0..n).map(|k| spawn_worker(prop, tier, seed, k, n, runs, &[], 0).ok()).collect();
     let mut stats = Stats::default();
@@ -297,6 +377,9 @@ pub fn sweep_procs(prop: &'static str, tier: Tier, seed: u64, runs: u64, wall_ca
                     let vs = exec_isolated(prop, &sc, hang_budget);
                     stats.bump("watchdog.kills");
                     for v in vs {
+                        if engine::known_match(&known, &v).is_none() {
+                            fatal = true;
+                        }
                         found.push(Found { index: i, scenario: sc.clone(), violation: v });
                     }
                     let mut skip = w.skip.clone();
@@ -352,6 +435,9 @@ pub fn sweep_procs(prop: &'static str, tier: Tier, seed: u64, runs: u64, wall_ca
                             });
                             skip.push(i);
                             stats.bump("fault.observed.worker_process_deaths");
+                            if found.last().is_some_and(|f| engine::known_match(&known, &f.violation).is_none()) {
+                                fatal = true;
+                            }
                         } else {
                             stats.bump("worker.died_between_runs");
                         }
@@ -373,8 +459,8 @@ pub fn sweep_procs(prop: &'static str, tier: Tier, seed: u64, runs: u64, wall_ca
         if alive == 0 {
             break;
         }
-        if t0.elapsed().as_secs_f64() > wall_cap_s {
-            capped = true;
+        if fatal || t0.elapsed().as_secs_f64() > wall_cap_s {
+            capped = !fatal;
             for slot in workers.iter_mut() {
                 if let Some(w) = slot {
                     let _ = w.child.kill();
